@@ -149,7 +149,24 @@ func init() {
 		g.arrivals <- t
 		<-t.release
 	}
+	// the replica's side: an entry read off the stream is held in flight (before the
+	// replica's lock is taken) while the gate of its store is armed
+	pilosa.VerifTranslateReplGate = func(s *pilosa.TranslateFile) {
+		v, ok := replGates.Load(s)
+		if !ok {
+			return
+		}
+		g := v.(*gateCtl)
+		if atomic.LoadInt32(&g.passthrough) != 0 {
+			return
+		}
+		t := &gateTicket{release: make(chan struct{})}
+		g.arrivals <- t
+		<-t.release
+	}
 }
+
+var replGates sync.Map // replica *pilosa.TranslateFile -> *gateCtl (passthrough != 0: not armed)
 
 // ---- the primary as the replica sees it: a byte-gated stream ---------------------------
 
@@ -199,9 +216,11 @@ type replicaLink struct {
 func (g *gatedPrimary) link() *replicaLink {
 	g.mu.Lock()
 	defer g.mu.Unlock()
+	// (streams opened through earlier links are left alone until the replica itself
+	// drops them: breaking them here would send the old replication goroutine into its
+	// retry loop just when handlePrimaryStoreEvent takes the store's lock and waits for
+	// that goroutine - which then blocks in size() for ever; see design/C24.md)
 	g.links++
-	g.gen++ // streams of earlier replica objects end here
-	g.cond.Broadcast()
 	return &replicaLink{gatedPrimary: g, id: g.links}
 }
 
@@ -225,7 +244,7 @@ func (g *gatedPrimary) reader(ctx context.Context, off int64, link int) (io.Read
 	if err != nil {
 		return nil, err
 	}
-	r := &gatedReader{g: g, rc: rc, ctx: ctx, pos: off, gen: gen}
+	r := &gatedReader{g: g, rc: rc, ctx: ctx, pos: off, gen: gen, link: link}
 	go func() {
 		<-ctx.Done()
 		g.mu.Lock()
@@ -242,13 +261,16 @@ type gatedReader struct {
 	ctx    context.Context
 	pos    int64
 	gen    int
+	link   int
 	closed bool
 }
 
 func (r *gatedReader) Read(p []byte) (int, error) {
 	g := r.g
 	g.mu.Lock()
-	for r.pos >= g.limit && r.gen == g.gen && !r.closed && r.ctx.Err() == nil {
+	// (a stream opened through an earlier link delivers nothing more; it ends when the
+	// replica drops it)
+	for (r.pos >= g.limit || r.link != g.links) && r.gen == g.gen && !r.closed && r.ctx.Err() == nil {
 		g.cond.Wait()
 	}
 	switch {
@@ -270,7 +292,7 @@ func (r *gatedReader) Read(p []byte) (int, error) {
 	n, err := r.rc.Read(p)
 	g.mu.Lock()
 	r.pos += int64(n)
-	if r.gen == g.gen {
+	if r.gen == g.gen && r.link == g.links {
 		g.pos = r.pos
 	}
 	g.cond.Broadcast()
@@ -364,6 +386,6 @@ func nsReverse(s *pilosa.TranslateFile, ns string, id uint64) (string, error) {
 func newTranslateFile(path string) *pilosa.TranslateFile {
 	s := pilosa.NewTranslateFile(pilosa.OptTranslateFileMapSize(mapSize))
 	s.Path = path
-	pilosa.VerifTranslateSetRetryInterval(s, 2*time.Millisecond)
+	pilosa.VerifTranslateSetRetryInterval(s, 5*time.Millisecond)
 	return s
 }
